@@ -140,7 +140,7 @@ def r05_3(ctx, rep, roles):
     callers = cg.callers_of(inc["id"])
     for cs in callers:
         f = fx.fns[cs.caller]
-        eng = sym.Engine(fx, no_inline={sns, inc["id"]}, inline_only=set())
+        eng = sym.Engine(fx, no_inline={sns, inc["id"]}, inline_only=set(getattr(fx, "new_helpers", ())))
         okc = False
         for row in eng.table(cs.caller):
             for e in row.calls():
